@@ -70,6 +70,11 @@ pub struct Embedding {
     /// exactly on sub-trie boundaries)
     #[serde(default)]
     pub filler_mode: u8,
+    /// lopsided(P): the members of model key 0 are scattered over the whole key space while every other group
+    /// is a cluster under a P-bit shared prefix (value-tree nodes whose separators share prefixes of very
+    /// different lengths)
+    #[serde(default)]
+    pub lopsided: bool,
 }
 
 impl Embedding {
@@ -91,6 +96,9 @@ impl Embedding {
         } else if let Some(p) = name.strip_prefix("deep(").and_then(|s| s.strip_suffix(')')) {
             let p: usize = p.parse().expect("deep(P)");
             (p.min(256 - nbits), 1, true)
+        } else if let Some(p) = name.strip_prefix("lopsided(").and_then(|s| s.strip_suffix(')')) {
+            let p: usize = p.parse().expect("lopsided(P)");
+            (p.min(256 - nbits), 1, true)
         } else if let Some(s) = name.strip_prefix("spread(").and_then(|s| s.strip_suffix(')')) {
             let s: usize = s.parse().expect("spread(S)");
             let s = s.min(255 / nbits.max(1)).max(1);
@@ -106,6 +114,7 @@ impl Embedding {
             clustered,
             filler_seed: seed,
             filler_mode,
+            lopsided: name.starts_with("lopsided("),
         }
     }
 
@@ -143,7 +152,7 @@ impl Embedding {
             };
             set_bit(&mut k, bit, src);
         }
-        if !self.clustered {
+        if !self.clustered || (self.lopsided && i == 0) {
             // scatter: model bits form a tag in the last bits; everything else is per-(group,member)
             let mut own = [0u8; 32];
             Rng::new(self.filler_seed ^ ((i as u64 + 1) << 32) ^ (j as u64 + 1)).fill(&mut own);
